@@ -752,6 +752,56 @@ def unit_guard(chk, prog, files):
 GATE_LIMIT = {"C01": 1e-6, "C02": 1e-6, "C07": 1e-6, "C09": 1e-6, "C10": 1e-6, "C11": 1e-6, "C12": 1e-6, "C18": 1e-6, "C19": 1e-6, "C03": 1e-6, "C04": 1e-6}
 
 
+PAIR_LIMIT = 1e-4      # relative rotation angle (rad) below which the metric closed forms need not be resolved
+
+
+def _pair_gate(chk, pid, fn, lhs, rhs, tol, prefixes, seen, suffix="wxyz"):
+    """gate on two unit quaternions with a constant right-hand side: the band of *relative* rotation angles it captures"""
+    import math
+    from . import poly as P
+    c = rhs.const() if hasattr(rhs, "const") else None
+    if c is None:
+        return 0
+    key = (fn, str(lhs)[:80], str(rhs)[:20], tol)
+    if key in seen:
+        return 0
+    seen.add(key)
+    t = tol[1] + tol[0] * abs(float(c))
+    a = (0.5, 0.5, 0.5, 0.5)
+    ax = (0.36, 0.48, 0.8)
+
+    def resid(s_):
+        d = (math.sqrt(1 - s_ * s_), s_ * ax[0], s_ * ax[1], s_ * ax[2])
+        b = (a[0]*d[0] - a[1]*d[1] - a[2]*d[2] - a[3]*d[3], a[0]*d[1] + a[1]*d[0] + a[2]*d[3] - a[3]*d[2],
+             a[0]*d[2] - a[1]*d[3] + a[2]*d[0] + a[3]*d[1], a[0]*d[3] + a[1]*d[2] - a[2]*d[1] + a[3]*d[0])
+        vals = {}
+        for pre, q in zip(prefixes, (a, b)):
+            for ch, v in zip(suffix, q):
+                vals[pre + ch] = v
+        return abs(P.evalf(lhs - rhs, lambda at: vals[at.name]))
+    try:
+        f2_, f3_ = resid(1e-3), resid(1e-4)
+    except Exception:
+        return 0
+    if not (f2_ > f3_ > 0) or f3_ > 1e-3:
+        return 0
+    p_ = round(math.log(f2_ / f3_) / math.log(10.0))
+    if p_ < 1:
+        return 0
+    k_ = f3_ / (1e-4 ** p_)
+    width = 2 * math.asin(min(1.0, (t / k_) ** (1.0 / p_)))
+    site = "%s::isclose(%s, %s)" % (fn, str(lhs)[:50], rhs)
+    if width > PAIR_LIMIT:
+        rel, _, q = fn.partition("::")
+        why = "the tolerance test isclose(%s, %s) (rtol=%g, atol=%g) in %s is true for every pair of rotations less than %.3e rad apart: the value it substitutes replaces the closed " \
+              "form on that whole band (allowed: %.0e rad)" % (str(lhs)[:50], rhs, tol[0], tol[1], q, width, PAIR_LIMIT)
+        chk.record("GATE-BAND", site, "tolerance gate captures a negligible band of relative rotations", verdict="VIOLATION", detail=why)
+        chk.finding("GATE-BAND", rel, q, "isclose gate closing for nearby rotations", why)
+    else:
+        chk.record("GATE-BAND", site, "gate captures pairs of rotations within %.3e rad of each other only" % width)
+    return 1
+
+
 def gate_report(chk, pid):
     """Every np.isclose/np.allclose comparison that any interpretation of this run met on symbolic unit quaternions is mapped to the band of rotation
     angles it captures (closing at the identity or at the half-turn); a band wider than the property tolerates is reported with the function that gates."""
@@ -768,15 +818,21 @@ def gate_report(chk, pid):
             names = sorted(P.atom(a).name for a in (lhs - rhs).atoms() if P.atom(a).kind == "sym")
         except Exception:
             continue
-        prefixes = {nm[:-1] for nm in names if nm[-1:] in "wxyz" and len(nm) > 1}
-        if len(prefixes) != 1 or not all(nm[:-1] in prefixes and nm[-1] in "wxyz" for nm in names):
+        suffix = "wxyz" if all(nm[-1:] in "wxyz" for nm in names) else ("0123" if all(nm[-1:] in "0123" for nm in names) else None)
+        if suffix is None or not names:
+            continue
+        prefixes = {nm[:-1] for nm in names if len(nm) > 1}
+        if len(prefixes) == 2:
+            n += _pair_gate(chk, pid, fn, lhs, rhs, tol, sorted(prefixes), seen, suffix)
+            continue
+        if len(prefixes) != 1:
             continue                      # not a function of one quaternion only
         pre = prefixes.pop()
         key = (fn, str(lhs)[:80], str(rhs)[:20], tol)
         if key in seen:
             continue
         seen.add(key)
-        b = gate_angle_band(lhs, rhs, tol[0], tol[1], [pre + c for c in "wxyz"])
+        b = gate_angle_band(lhs, rhs, tol[0], tol[1], [pre + c for c in suffix])
         if not b or b == "foreign":
             continue
         n += 1
